@@ -319,6 +319,11 @@ pub fn worker_main(prop: &PropDef, tier: Tier, seed: u64, shard: u64, nshards: u
             }
         });
     }
+    if prop.id == "C12" {
+        // descriptor numbers are part of what is passed around: with stdin closed the lowest
+        // numbers (0 included) get used for the descriptors the cases create and receive
+        unsafe { libc::close(0) };
+    }
     let jobs = (prop.plan)(tier);
     let mut stats: Vec<JobStats> = Vec::new();
     let mut violations: Vec<Violation> = Vec::new();
